@@ -40,10 +40,41 @@ func (*engine) Decode(raw json.RawMessage) (any, error) {
 			return nil, fmt.Errorf("decl %d has no value", i)
 		}
 	}
+	for i := range c.Statics {
+		if c.Statics[i].Val == nil {
+			return nil, fmt.Errorf("static %d has no value", i)
+		}
+	}
+	for i := range c.Unit {
+		if c.Unit[i].Val == nil {
+			return nil, fmt.Errorf("unit entry %d has no value", i)
+		}
+	}
 	return &c, nil
 }
 
+// configurations that do not change what the mappings mean: the successor as a middle node,
+// data edges without direct dependency
 func (e *engine) Generate(r *lib.Rng, tier string, i int) any {
+	if (e.fam == nil || e.fam.pos >= len(e.fam.perms)) && r.Chance(1, 8) {
+		g := &gen{r: r, depth: 3}
+		if c := g.unitCase(); c != nil {
+			return c
+		}
+	}
+	c := e.generate(r, tier, i).(*Case)
+	if r.Chance(1, 4) {
+		c.Mid = true
+	}
+	for k := range c.Decls {
+		if len(c.Decls[k].Maps) > 0 && r.Chance(1, 6) {
+			c.Decls[k].Indirect = true
+		}
+	}
+	return c
+}
+
+func (e *engine) generate(r *lib.Rng, tier string, i int) any {
 	if e.fam != nil && e.fam.pos < len(e.fam.perms) {
 		return e.fam.next()
 	}
@@ -89,7 +120,10 @@ func (e *engine) Generate(r *lib.Rng, tier string, i int) any {
 			return c
 		}
 	}
-	c, _ := g.base(r.Range(1, maxDecls), maxMaps, false)
+	c, tpaths := g.base(r.Range(1, maxDecls), maxMaps, false)
+	if r.Chance(1, 5) {
+		c.Note = "static:" + g.addStatics(c, tpaths)
+	}
 	return c
 }
 
@@ -143,14 +177,104 @@ func coqTerm(c *Case, o *outcome) string {
 	default:
 		os = "SPanic"
 	}
-	return "(MkCase genv " + coqTy(c.T) + " " + lib.CoqList(ds) + " " + lib.CoqList(srcs) + " " + lib.CoqList(chunks) +
-		" " + oc + " " + oi + " " + os + ")"
+	var sts []string
+	for _, s := range c.Statics {
+		sts = append(sts, lib.CoqPair(coqPath(s.To), s.Val.coq()))
+	}
+	return "(MkCase genv " + coqTy(c.T) + " " + lib.CoqList(ds) + " " + lib.CoqList(sts) + " " + lib.CoqList(srcs) + " " + lib.CoqList(chunks) +
+		" " + oc + " " + oi + " " + os + " " + lib.CoqBool(len(o.SrcMod) > 0) + " [] [])"
 }
 
 const reps = 5
 
+// SetStaticValue keeps one value per path (a Go map): a later value for the same path replaces the earlier one
+func (c *Case) normalize() {
+	var out []Static
+	for _, s := range c.Statics {
+		replaced := false
+		for i := range out {
+			if strings.Join(out[i].To, "\x1f") == strings.Join(s.To, "\x1f") {
+				out[i] = s
+				replaced = true
+			}
+		}
+		if !replaced {
+			out = append(out, s)
+		}
+	}
+	c.Statics = out
+}
+
+func (e *engine) runUnit(c *Case) lib.Result {
+	var res lib.Result
+	outs := executeUnit(c)
+	res.Obs = outs
+	fail := func(sig, what string) {
+		if res.Oracle == "" {
+			res.Oracle, res.Sig = what, sig
+		}
+	}
+	var tps [][]string
+	for _, s := range c.Unit {
+		tps = append(tps, s.To)
+	}
+	conflict := hasConflict(tps)
+	valid := staticsValid(c.T, c.Unit)
+	if !conflict {
+		// overlap-free keys: one outcome whatever the iteration order, no write into the values
+		if len(outs) != 1 {
+			fail("unit-order-dependent", fmt.Sprintf("convertTo on overlap-free keys %v gave %d different outcomes", tps, len(outs)))
+		}
+		for _, o := range outs {
+			if o.SrcMod {
+				fail("source-modified", "convertTo modified a mapped value although the keys do not overlap")
+			}
+			if valid && o.Res != "ok" {
+				fail("unit-panic", "convertTo panicked on valid overlap-free keys: "+o.Msg)
+			}
+			if valid && o.Res == "ok" {
+				if exp, cls := refRunS(c.T, nil, nil, c.Unit, false); cls != "ok" || !looseEq(exp, o.Val) {
+					fail("unit-value", fmt.Sprintf("convertTo gave %s, the values put at their paths are %s", loose(o.Val), exp))
+				}
+			}
+		}
+	}
+	var obs []string
+	for _, o := range outs {
+		r := "RPanic"
+		if o.Res == "ok" {
+			r = "(RVal " + o.Val.coq() + ")"
+		}
+		obs = append(obs, lib.CoqPair(r, lib.CoqBool(o.SrcMod)))
+	}
+	var sts []string
+	for _, s := range c.Unit {
+		sts = append(sts, lib.CoqPair(coqPath(s.To), s.Val.coq()))
+	}
+	res.CoqTerm = "(MkCase genv " + coqTy(c.T) + " [] [] [] [] OOther RNone SNone false " + lib.CoqList(sts) + " " + lib.CoqList(obs) + ")"
+	res.Nontrivial = len(c.Unit) >= 2
+	res.Tags = []string{"unit", "T:" + c.T, fmt.Sprintf("unit-keys:%d", len(c.Unit)), fmt.Sprintf("unit-outcomes:%d", len(outs))}
+	if conflict {
+		res.Tags = append(res.Tags, "unit-conflict")
+	}
+	for _, o := range outs {
+		if o.SrcMod {
+			res.Tags = append(res.Tags, "unit-srcmod")
+			break
+		}
+	}
+	if c.Note != "" {
+		res.Tags = append(res.Tags, "gen:"+c.Note)
+	}
+	return res
+}
+
 func (e *engine) Run(ci any) lib.Result {
 	c := ci.(*Case)
+	if len(c.Unit) > 0 {
+		return e.runUnit(c)
+	}
+	c.normalize()
 	var res lib.Result
 	outs := make([]*outcome, reps)
 	for i := range outs {
@@ -180,7 +304,7 @@ func (e *engine) Run(ci any) lib.Result {
 	if o.Stream == "panic" || o.Stream == "hang" {
 		fail(o.Stream+":stream", "Stream: "+o.Stream+" "+o.StrMsg)
 	}
-	tps := targetPaths(c.Decls)
+	tps := allTargets(c)
 	conflict := hasConflict(tps)
 	if conflict && o.Compile == "accept" {
 		fail("overlap-accepted", fmt.Sprintf("overlapping target paths %v accepted by Compile", tps))
@@ -192,13 +316,16 @@ func (e *engine) Run(ci any) lib.Result {
 		fail("source-modified", "a predecessor's output was modified: "+strings.Join(o.SrcMod, "; "))
 	}
 	rtChecked := false
-	if o.Compile == "accept" && !conflict {
+	if o.Compile == "accept" && !conflict && !staticsValid(c.T, c.Statics) {
+		fail("static-value-accepted", fmt.Sprintf("Compile accepted static values %v that do not fit %s", c.Statics, c.T))
+	}
+	if o.Compile == "accept" && !conflict && staticsValid(c.T, c.Statics) {
 		// Invoke against the reference
 		vals := make([]*V, len(c.Decls))
 		for i := range c.Decls {
 			vals[i] = c.Decls[i].Val
 		}
-		exp, cls := refRun(c.T, c.Decls, vals, false)
+		exp, cls := refRunS(c.T, c.Decls, vals, c.Statics, false)
 		switch {
 		case o.Invoke == "ok" && cls == "ok":
 			if !looseEq(exp, o.InvVal) {
@@ -224,6 +351,15 @@ func (e *engine) Run(ci any) lib.Result {
 					expErr = true
 					break
 				}
+				expChunks = append(expChunks, loose(v).String())
+			}
+		}
+		if len(c.Statics) > 0 && !expErr {
+			// the static values arrive as one chunk of their own
+			v, cl := refRunS(c.T, nil, nil, c.Statics, true)
+			if cl != "ok" {
+				expErr = true
+			} else {
 				expChunks = append(expChunks, loose(v).String())
 			}
 		}
@@ -315,6 +451,20 @@ func (e *engine) Run(ci any) lib.Result {
 	}
 	if multiChunk {
 		res.Tags = append(res.Tags, "multi-chunk")
+	}
+	if len(c.Statics) > 0 {
+		res.Tags = append(res.Tags, fmt.Sprintf("statics:%d", len(c.Statics)))
+	}
+	if c.Mid {
+		res.Tags = append(res.Tags, "succ:mid")
+	} else {
+		res.Tags = append(res.Tags, "succ:end")
+	}
+	for k := range c.Decls {
+		if c.Decls[k].Indirect {
+			res.Tags = append(res.Tags, "indirect")
+			break
+		}
 	}
 	if c.Note != "" {
 		res.Tags = append(res.Tags, "gen:"+c.Note)
